@@ -31,6 +31,10 @@ P = {
          "encoder/decoder siblings agree on layout constants (hash slice bounds, complementary representative masks on the same byte, 32-byte header split, prefix widths); randomised obfuscators refill their ephemeral secret from crypto/rand on every path; names sent on the wire come from validating constructors. "
          "The round trips themselves for every payload/key and the Noise exchange are value-level and not decided.",
          "4/C15"),
+ "C20": (True, "who-may-write over file-creating APIs, guard dominance and must-pass ordering (marshal -> write temp -> rename), value-flow of the rollback, lockset (go/ssa)",
+         "Decides for every crash point and write fault: the only file the client library ever creates is a freshly (randomly) named temporary in the ClientConf's own directory; the final name is only ever the destination of a rename, reached only after Marshal and the write both succeeded, and the renamed file is the one written; "
+         "a failed SetClientConf restores the pointer loaded before the assignment; every store into the in-memory config is under the write lock and followed by a save on every path. With POSIX rename atomicity (assumed) no crash point can leave a truncated or mixed file. Durability across power loss is not in the statement.",
+         "4/C20"),
  "C18": (True, "finite predicate abstraction of the Lookup conditions, guard dominance (polarity, nil tests, sibling wiring), lockset guarded-by, must-pass pairing (go/ssa)",
          "Decides: each cache Lookup answers true iff the key is present and its age is below the expiration (all valuations); probe results go to the cache of their verdict and hits return their cache's verdict; the probe is reached only on a double miss; "
          "Init wires each cache only from its own duration/capacity setting and passes the capacity it tested; every call through an optional cache is dominated by a nil test of the same field; cache maps only under their mutex; LRU inserts are registered, evictions delete under the lock, LRU sized by the configured capacity. "
